@@ -40,6 +40,7 @@ import SmVerif.Lemmas.TaxResult
 import SmVerif.Lemmas.TaxKreport
 import SmVerif.Lemmas.TaxMulti
 import SmVerif.Lemmas.TaxSession
+import SmVerif.Lemmas.TaxLoad
 
 namespace Sm.C19
 
@@ -290,6 +291,40 @@ theorem classification_lowest_rank (rp : Option (Repair ℚ)) (g : Gather ν) (h
             omega
           · have : r1 = r := (Prod.mk.inj hin).1
             omega
+
+/-! ### reading the gather CSV(s): one result per query -/
+
+/-- **every query owns all its rows**: `load_gather_results` stores under each query name exactly that query's rows of the
+file, in file order — wherever they stand between the rows of other queries (several gather outputs concatenated,
+interleaved, re-sorted …).  `κ` = query names, `β` = rows. -/
+theorem loader_groups_by_query {κ β : Type} [DecidableEq κ] (rows : List (κ × β)) (k : κ) :
+    rowsOf k (groupRows rows []) = (rows.filter (fun r => decide (r.1 = k))).map Prod.snd := by
+  rw [rowsOf_groupRows]; simp [rowsOf]
+
+/-- **interleaving invariance**: two deliveries of the rows in which every query's rows come in the same relative order
+give every query the same row list — hence the same summary, bit for bit, in any arithmetic (the doubles included).
+What order dependence remains is the order of a query's OWN rows (gather's rank order): over the rationals it does not
+matter either (`order_independent`), in binary64 it can move last bits (FULL STATEMENT note above).  The order in which
+the queries appear in multi-query outputs is their order of first appearance. -/
+theorem per_query_rows_invariant_under_interleaving {κ β : Type} [DecidableEq κ] (rows rows' : List (κ × β))
+    (h : ∀ k, (rows.filter (fun r => decide (r.1 = k))).map Prod.snd = (rows'.filter (fun r => decide (r.1 = k))).map Prod.snd) :
+    ∀ k, rowsOf k (groupRows rows []) = rowsOf k (groupRows rows' []) := by
+  intro k
+  rw [loader_groups_by_query, loader_groups_by_query, h k]
+
+/-- a file is accepted — and loads as that grouping — unless one of its rows belongs to a query already loaded from an
+earlier file, or lacks a lineage under `--fail-on-missing-taxonomy`, or the file has no rows -/
+theorem loader_accepts {κ β : Type} [DecidableEq κ] (failMissing : Bool) (missing : β → Bool) (seen : List κ)
+    (rows : List (κ × β)) (hne : rows ≠ []) (hseen : ∀ r ∈ rows, seen.contains r.1 = false)
+    (hmiss : ∀ r ∈ rows, (failMissing && missing r.2) = false) :
+    loadFile failMissing missing seen rows [] = .ok (groupRows rows []) :=
+  loadFile_ok failMissing missing seen rows [] hseen hmiss (Or.inl hne)
+
+/-- the regression example for a loader that starts a FRESH result whenever the query switches (instead of looking the
+name up): rows `a₁ b₁ a₂` — the dictionary lookup gives query `a` both its rows (kernel-checked on the model) -/
+theorem interleaved_rows_example :
+    rowsOf 0 (groupRows [(0, 10), (1, 20), (0, 11)] ([] : List (Nat × List Nat))) = [10, 11] ∧
+    rowsOf 1 (groupRows [(0, 10), (1, 20), (0, 11)] ([] : List (Nat × List Nat))) = [20] := by decide
 
 /-! ### several queries -/
 
